@@ -152,6 +152,16 @@ def check_geometry(case, ctx: Ctx):
                 for idx in itertools.product(*[range(s) for s in shape]):
                     require(float(M[idx]) == vals[idx[a]], "mesh_value", f"{nm} axis {a} cell {idx}: {M[idx]!r} vs {vals[idx[a]]!r}")
         if all(not model.gaps(p) for p in pairs):
+            # the mesh of edges: one array per axis, one more point than bins along every axis
+            emesh = ctx.call("get_bin_edges()", h.get_bin_edges)
+            require(len(emesh) == d, "mesh_length", "get_bin_edges")
+            eshape = tuple(s_ + 1 for s_ in shape)
+            for a in range(d):
+                M = np.asarray(emesh[a], dtype=float)
+                require(tuple(M.shape) == eshape, "mesh_shape", f"get_bin_edges axis {a}: {M.shape} vs {eshape}")
+                ev = [pairs[a][0][0]] + [p[1] for p in pairs[a]]
+                for idx in itertools.product(*[range(s_) for s_ in eshape]):
+                    require(float(M[idx]) == ev[idx[a]], "mesh_value", f"get_bin_edges axis {a} point {idx}: {M[idx]!r} vs {ev[idx[a]]!r}")
             import warnings
 
             with warnings.catch_warnings():
